@@ -39,6 +39,25 @@ theorem src_nonce_start : src_newInternalState = "return aeadState{Mutex: sync.M
 theorem nonces_fresh (n0 : UInt64) (len : Nat) (h : n0.toNat + len ≤ 18446744073709551615) : Fresh n0 len :=
   fresh_of_bound n0 len h
 
+/-- **nonce_never_repeats**: the generated `incrementNonce` is injective on counters below 2^64-1, and
+a run of frames that stays below 2^64-1 never uses a nonce twice (strictly increasing counters). This
+is the obligation a changed wrap-around guard breaks (e.g. a guard at 2^32-1 makes
+`incrementNonce 4294967295 = 1`). -/
+theorem nonce_never_repeats :
+    (∀ a b : UInt64, a.toNat < 18446744073709551615 → b.toNat < 18446744073709551615 →
+      incrementNonce a = incrementNonce b → a = b) ∧
+    (∀ (n0 : UInt64) (i j : Nat), n0.toNat + i ≤ 18446744073709551615 → n0.toNat + j ≤ 18446744073709551615 →
+      nonceAt n0 i = nonceAt n0 j → i = j) ∧
+    (∀ c : UInt64, c.toNat < 18446744073709551615 → (incrementNonce c).toNat = c.toNat + 1) := by
+  refine ⟨fun a b ha hb h => ?_, fun n0 i j hi hj h => nonceAt_inj n0 i j hi hj h, inc_toNat⟩
+  have := congrArg UInt64.toNat h
+  rw [inc_toNat a ha, inc_toNat b hb] at this
+  exact UInt64.toNat_inj.mp (by omega)
+
+/-- the counter passes 2^32-1 and 2^63 like any other value -/
+theorem nonce_crosses_inner_boundaries :
+    incrementNonce 4294967295 = 4294967296 ∧ incrementNonce 9223372036854775807 = 9223372036854775808 := by decide
+
 /-- observation (outside the statement; the code comments it as "should never happen"): at 2^64-1 the
 counter wraps to 1, i.e. the nonce of the second frame would be used again -/
 theorem nonce_wrap_reuses : incrementNonce 18446744073709551615 = incrementNonce 0 := by decide
